@@ -75,6 +75,9 @@ func loopPos(ld *loopDesc) token.Pos {
 			if _, isDbg := in.(*ssa.DebugRef); isDbg {
 				continue
 			}
+			if _, isPhi := in.(*ssa.Phi); isPhi {
+				continue // a phi carries the position of its variable's declaration, which precedes the loop
+			}
 			if p.IsValid() && (best == token.NoPos || p < best) {
 				best = p
 			}
